@@ -83,3 +83,14 @@ def early_computed_size_that_can_go_negative(fam):
                 if i and i["n"] == 1 and (i["signed"] or (isinstance(e, list) and e[0] == "b" and e[1] == "sub")):
                     return True
     return False
+
+
+def selector_between_integers_of_different_shape(fam):
+    """The root declaration has an unwrapped run-time selected field at least two of whose alternatives are integers that differ in
+    width, sign or byte order (the same *kind* of field, another encoding)."""
+    for f in fam["decls"][fam["root"]]["fields"]:
+        if f["t"] == "sel" and not any(k in f for k in ("rep", "opt")):
+            shapes = {(o["n"], o["signed"], o["endian"]) for o in f["options"].values() if o["t"] == "int"}
+            if len(shapes) >= 2:
+                return True
+    return False
